@@ -2,3 +2,4 @@ pub mod decode;
 pub mod denote;
 pub mod encode;
 pub mod val;
+pub mod dist;
